@@ -53,7 +53,8 @@
        (m+k) mod 6 (this is what pivot(v,-rotNum) does and what test_hexBlockRotate expects).
      * Pin-indexed parameters (linPowByPin, ...) are attached to pin m wherever it sits; they are not part of the
        statement and are not modelled.
-     * orientation is compared as an angle (mod 360).
+     * orientation is compared as an angle (mod 360); HexBlock.getRotationNum() must be that angle in sixty-degree steps,
+       0..5, whatever the history (rotate() accumulates orientation[2] without reducing it).
      * A block without a spatial grid has only default children (free point at the origin / no locator).  A child
        without locator inside a block WITH a grid is not modelled: armi cannot even copy such a block
        (Composite.__setstate__ calls spatialLocator.associate on every child).
@@ -235,7 +236,8 @@ ObsBlock(b) == [kids  |-> [x \in 1..Len(b.kids) |-> [t |-> b.kids[x].t, cells |-
                 pinxy |-> [x \in 1..Len(PinCells(b)) |-> SymXY(b.o, PinCells(b)[x])],
                 bp    |-> b.bp,
                 disp  |-> b.disp,
-                deg   |-> b.deg]
+                deg   |-> b.deg,
+                rotnum |-> b.deg \div 60]        \* HexBlock.getRotationNum(): 0..5, also after histories that pass 360 degrees
 Obs  == [blocks |-> [b \in 1..Len(blocks) |-> ObsBlock(blocks[b])]]
 Vars == [cfg |-> [b \in 1..Len(blocks) |-> CfgOf(blocks[b])], tot |-> tot]
 =============================================================================================================
